@@ -81,9 +81,19 @@ def canonicalise(repo, modules):
                 if sig is not None:
                     return sig
             cands = by_method.get(f.attr, [])
-            sigs = {tuple(_params(m.node, "staticmethod" not in m.decorators) or ("<var>",)) for m in cands}
+            sigs = {("<var>",) if pr is None else tuple(pr) for pr in (_params(m.node, "staticmethod" not in m.decorators) for m in cands)}
             if len(sigs) == 1 and ("<var>",) not in sigs:
                 return list(next(iter(sigs)))
+            # several methods of that name: the keyword names used may fit only one of the signatures
+            used = {k.arg for k in call.keywords if k.arg}
+            fitting = {sg for sg in sigs if sg != ("<var>",) and used and used <= set(sg) and len(call.args) <= len(sg)}
+            if len(fitting) == 1 and ("<var>",) not in sigs:
+                return list(next(iter(fitting)))
+            if fitting and ("<var>",) not in sigs:
+                # ... or several that agree on everything up to the last keyword used
+                cut = {sg[:max(sg.index(u) for u in used) + 1] for sg in fitting}
+                if len(cut) == 1:
+                    return list(next(iter(cut)))
             if f.attr in STDLIB_METHODS and call.keywords and all(k.arg in STDLIB_METHODS[f.attr] for k in call.keywords if k.arg):
                 return STDLIB_METHODS[f.attr]
             return None
